@@ -409,6 +409,50 @@ def enum_limits(shard, nshards, tier):
                 i += 1
 
 
+def enum_boundaries(shard, nshards, tier):
+    """Indicators and document markers followed directly by every separator the portable subset allows - a space, each kind
+    of line break, the end of the input - after several kinds of preceding content (exhaustive)."""
+    nls = ["\n", "\r", "\r\n", "\x85", "\u2028", "\u2029"]
+    texts = []
+    for nl in nls:
+        for body in ["a", "a b", "- a", "k: v", "'q'", "[a]", "k: |%s  t" % nl, "a%s  b" % nl]:
+            for marker in ["...", "---"]:
+                for after in ["", " ", nl, " x", nl + "b", " #c" + nl, nl + nl]:
+                    texts.append(body + nl + marker + after)
+                for pre in [nl + nl, nl + " " + nl, nl + nl + nl]:        # blank lines before the marker
+                    for after in ["", nl, " x"]:
+                        texts.append(body + pre + marker + after)
+        # blank lines inside multi-line plain, single- and double-quoted scalars
+        for gap in [nl + nl, nl + " " + nl, nl + nl + nl]:
+            for after in ["", nl]:
+                texts.append("a%s b%s" % (gap, after))
+                texts.append("k: a%s  b%s" % (gap, after))
+                texts.append("'a%s b'%s" % (gap, after))
+                texts.append("k: \"a%s  b\"%s" % (gap, after))
+                texts.append("- 'a %s  b'%s- c%s" % (gap, nl, after))
+                texts.append("k: |%s  a%s" % (gap, after))                 # leading blank lines of block scalars
+                texts.append("--- >%s  a%s  b%s" % (gap, nl, after))
+                texts.append("- |+%s  a%s%s" % (gap, gap, after))
+        for after in ["", nl]:
+            texts.append("-%s  a%s" % (nl, after))
+            texts.append("- -%s    a%s- b%s" % (nl, nl, after))
+            texts.append("?%s  k%s:%s  v%s" % (nl, nl, nl, after))
+            texts.append("k:%s  v%s" % (nl, after))
+            texts.append("? k%s:%s  - v%s" % (nl, nl, after))
+            texts.append("[a,%s b,%s]%s" % (nl, nl, after))
+            texts.append("{a:%s  b,%s ? c%s}%s" % (nl, nl, nl, after))
+            texts.append("a: &x%s  b%sc: *x%s" % (nl, nl, after))
+            texts.append("--- >%s  a%s%s  b%s...%s" % (nl, nl, nl, nl, after))
+    for i, t in enumerate(texts):
+        if i % nshards == shard:
+            yield t
+
+
+def eval_boundaries(text):
+    failures, evals, summary = compare_text(text)
+    return Eval(failures, ["boundaries"], nontrivial=True, ident=text, evals=evals, sample={"text": text, "outcomes": {k: list(v) for k, v in summary.items()}})
+
+
 def eval_limits(case):
     shape, n, fill = case
     text = shape % (fill * n)
@@ -486,6 +530,7 @@ def arms(tier):
         Arm("malformed", eval_malformed, enum=enum_malformed, exhaustive=True),
         Arm("stream-delivery", eval_stream_delivery, stream_cases, quick=1500, thorough=60000),
         Arm("limits", eval_limits, enum=enum_limits, exhaustive=True),
+        Arm("boundaries", eval_boundaries, enum=enum_boundaries, exhaustive=True),
         Arm("tagged-scalars", eval_tagged, tagged_scalar_docs, quick=1500, thorough=40000),
     ]
 
